@@ -56,9 +56,9 @@ S(p) ==
    mem |-> MemFor(p), ev |-> [evreg |-> 0, wfe |-> 0, wfi |-> 0],
    cfg |-> [arch |-> 7, pmsa |-> FALSE, sec |-> TRUE, virt |-> TRUE, lpae |-> TRUE]]
 
-MemAttrs == IF FULL THEN {0, 1, 5, 6, 7, 10, 11, 15, 14} ELSE {0, 1, 5, 7, 10, 15}
+MemAttrs == IF FULL THEN {0, 1, 5, 6, 7, 10, 11, 15, 14} ELSE {0, 1, 5, 10, 15}
 Init == sc = [stage |-> 0]
-Pick1 == sc.stage = 0 /\ \E shape \in Shapes, hap \in 0..3, af \in {0, 1}, ma \in MemAttrs, sh \in {0, 2, 3} :
+Pick1 == sc.stage = 0 /\ \E shape \in Shapes, hap \in 0..3, af \in {0, 1}, ma \in MemAttrs, sh \in (IF FULL THEN {0, 2, 3} ELSE {0, 2}) :
            sc' = [stage |-> 1, shape |-> shape, hap |-> hap, af |-> af, ma |-> ma, sh |-> sh]
 Pick2 == sc.stage = 1 /\ \E sl0 \in {0, 1}, t0 \in {0, -8, 4}, dc \in {0, 1}, i1 \in (IF FULL THEN {0, 1, 3} ELSE {0, 1}), i2 \in (IF FULL THEN {0, 5, 511} ELSE {5, 200}),
                             i3 \in (IF FULL THEN {0, 7, 511} ELSE {7}), priv \in (IF FULL THEN BOOLEAN ELSE {TRUE}), wr \in BOOLEAN, mis \in {0, 1} :
